@@ -622,6 +622,12 @@ def sym_pow(base, p):
     bt = SymReal.lift(base)
     if getattr(c, "pow_uf", False) and not (f.denominator == 1 and 0 <= f.numerator <= 2
                                             and (f.numerator < 2 or z3.is_const(bt) or z3.is_rational_value(bt))):
+        if f.denominator == 1 and c.decide(bt < 0):
+            # integer power of a negative base: plain polynomial (the UF family is defined on x >= 0 only)
+            n = f.numerator
+            if n >= 0:
+                return SymReal(_ipow(bt, n))
+            return SymReal(1 / _ipow(bt, -n))
         return c.pow_theory().power(bt, f)
     if f.denominator == 1:
         n = f.numerator
@@ -658,10 +664,20 @@ class PowTheory(object):
     exponents are those of the executed code, so a wrong exponent in the code breaks the instantiated identities.
     """
 
+    def product_closure(self):
+        """Instantiate P_a(x) * P_b(x) = P_{a+b}(x) for every pair of applications on a common argument."""
+        base = list(self.apps)
+        for i, (e1, t1, v1) in enumerate(base):
+            for (e2, t2, v2) in base[i:]:
+                if t1.eq(t2):
+                    w = self.apply(t1, e1 + e2, closure=True)
+                    self.ex.axiom(v1 * v2 == w)
+
     def __init__(self, ex):
         self.ex = ex
         self.apps = []          # (e, arg term, value term)
         self.funcs = {}
+        self.compose = False    # rewrite P_e(P_e2(u)) to P_{e e2}(u) syntactically (used by the derivative harness)
 
     def func(self, e):
         if e not in self.funcs:
@@ -686,6 +702,10 @@ class PowTheory(object):
         for (e2, t2, v2) in self.apps:
             if e2 == e and t2.eq(t):
                 return v2
+        if not closure and self.compose:
+            for (e2, t2, v2) in self.apps:
+                if v2.eq(t):
+                    return self.apply(t2, e * e2)          # (u^e2)^e = u^(e e2) for u >= 0
         ex = self.ex
         v = self.func(e)(t)
         ex.axiom(z3.And(v >= 0, (v == 0) == (t == 0)))
